@@ -195,6 +195,22 @@ def check_candidates(schema, cands, rec, label):
                 rec.violation(f"definition violating a rule ({why}) was accepted", case)
             elif not any(i["code"] == "DEFINITION_INVALID" and i["severity"] == ErrorSeverity.ERROR for i in issues):
                 rec.violation(f"rejected definition ({why}) reported without DEFINITION_INVALID", case)
+    # the same verdict through the other ways of handing definitions to a dictionary
+    for text, accept, why in cands:
+        for form in ("str", "list", "dict-of-dict"):
+            rec.mon("candidate-verdict-other-form")
+            case = dict(kind="candidate", schema=label, text=text, accept=accept, why=why, form=form)
+            try:
+                if form == "dict-of-dict":
+                    d2 = DefinitionDict(DefinitionDict([text], schema), schema)
+                else:
+                    d2 = DefinitionDict(text if form == "str" else [text], schema)
+            except Exception as ex:  # noqa
+                rec.violation(f"DefinitionDict({form}) raised {type(ex).__name__}", case)
+                continue
+            got = len(d2.defs) == 1 and (form == "dict-of-dict" or not d2.issues)
+            if got != accept:
+                rec.violation("a definition is accepted through one way of building the dictionary and not through another", case)
     # duplicates (case-insensitive) are reported and ignored
     for name in list(first_contents)[:3]:
         disp = dd.defs[name].name
